@@ -109,13 +109,25 @@ fn serializer_scenario(l: &mut L1, seed: u64, ctx: &RunCtx) -> Result<(), Violat
         2 => l.ch.choose("after_wrap", 60) as u16,
         _ => l.ch.choose("any_hour", 65536) as u16,
     };
-    let ttl: u16 = match l.ch.weighted("ttl", &[5, 1, 1, 1, 1]) {
+    // hunting: the text form is a number, so its length tells how many leading zero bytes the masked data has; the
+    // first beacon is written at the hour (of all 65536) that gives the shortest text
+    let hunt = l.ch.chance("hunt_shortest_text", 10);
+    let ttl: u16 = if hunt { 65535 } else { ttl_choice(l) };
+    serializer_scenario_inner(l, seed, &mut rng, pw_r, hour_r, ttl, hunt)
+}
+
+fn ttl_choice(l: &mut L1) -> u16 {
+    match l.ch.weighted("ttl", &[5, 1, 1, 1, 1]) {
         0 => 50,
         1 => 0,
         2 => 65535,
         3 => 32767 + l.ch.choose("ttl_mid", 3) as u16,
         _ => l.ch.choose("ttl_any", 65536) as u16,
-    };
+    }
+}
+
+fn serializer_scenario_inner(l: &mut L1, seed: u64, rng: &mut Rng, pw_r: u32, hour_r: u16, ttl: u16, hunt: bool) -> Result<(), Violation> {
+    let mut rng = Rng::new(rng.next());
     let count = 1 + l.ch.choose("beacons", 4) as usize;
     let mut placed: Vec<Placed> = vec![];
     let mut text = String::new();
@@ -140,10 +152,33 @@ fn serializer_scenario(l: &mut L1, seed: u64, ctx: &RunCtx) -> Result<(), Violat
             2 => l.ch.choose("age_100", 201) as i32 - 100,
             _ => l.ch.choose("age_any", 65536) as i32,
         };
-        let hour_w = (hour_r as i32 + off).rem_euclid(65536) as u16;
+        let mut hour_w = (hour_r as i32 + off).rem_euclid(65536) as u16;
         let v4 = l.ch.weighted("v4_count", &[1, 3, 3, 2, 1, 1, 1, 1, 1]);
         let v6 = l.ch.weighted("v6_count", &[4, 2, 1, 1, 1]);
         let addrs = gen_addrs(&mut rng, v4, v6);
+        if hunt && placed.is_empty() {
+            let ser = Ser::new(password(pw).as_bytes());
+            let mut best = (usize::MAX, hour_w);
+            let mut usual = 0usize;
+            for h in 0..=65535u16 {
+                SimClock::set(h as i64 * 3600);
+                let len = match io::guarded(|| ser.encode(&addrs)) {
+                    Ok(b) => b.len(),
+                    Err(p) => return Err(Violation::new("no-panic", "encode-panics", format!("encode({:?}) at hour {} panicked: {}", addrs, h, p))),
+                };
+                usual = usual.max(len);
+                if len < best.0 {
+                    best = (len, h);
+                }
+            }
+            hour_w = best.1;
+            match usual - best.0 {
+                0 => l.count("c17_hunt_found_nothing_shorter"),
+                1 => l.count("c17_hunt_text_shorter_by_1"),
+                2 => l.count("c17_hunt_text_shorter_by_2"),
+                _ => l.count("c17_hunt_text_shorter_by_3_or_more"),
+            }
+        }
         SimClock::set(hour_w as i64 * 3600 + l.ch.choose("minute", 3600) as i64);
         let ser_w = Ser::new(password(pw).as_bytes());
         let b = match io::guarded(|| ser_w.encode(&addrs)) {
@@ -154,8 +189,15 @@ fn serializer_scenario(l: &mut L1, seed: u64, ctx: &RunCtx) -> Result<(), Violat
         text.push_str(&filler(&mut rng, pre));
         if stray && l.ch.chance("stray_here", 500) {
             // partial / overlapping markers of the reader's password in front of a beacon
-            let kind = l.ch.choose("stray_kind", 5);
+            let kind = l.ch.choose("stray_kind", 6);
             let s = match kind {
+                5 => {
+                    // a very long alphanumeric chunk between a begin and an end marker
+                    let n = 4000 + rng.below(4000) as usize;
+                    let body: String = (0..n).map(|_| ALNUM[rng.below(62) as usize] as char).collect();
+                    l.count("c17_long_chunk_between_markers");
+                    format!("{}{}{}", begin, body, end)
+                }
                 0 => begin[..1 + rng.below(4) as usize].to_string(),
                 1 => end.clone(),
                 2 => begin.clone(),
@@ -474,6 +516,6 @@ impl Scenario for C17 {
     }
 
     fn expected_probes(&self) -> Vec<&'static str> {
-        vec!["c17_clean_texts_checked", "c17_with_accepted_beacons", "c17_with_too_old_or_too_new_beacons", "c17_stray_texts_checked", "c17_overlapping_markers_crafted", "c17_torn_checked", "fault_file_garbage", "fault_file_missing", "c17_beacon_loads_checked", "c17_loads_with_accepted_beacons", "c17_pairs_expected_to_meet"]
+        vec!["c17_clean_texts_checked", "c17_with_accepted_beacons", "c17_with_too_old_or_too_new_beacons", "c17_stray_texts_checked", "c17_overlapping_markers_crafted", "c17_long_chunk_between_markers", "c17_torn_checked", "fault_file_garbage", "fault_file_missing", "c17_beacon_loads_checked", "c17_loads_with_accepted_beacons", "c17_pairs_expected_to_meet"]
     }
 }
